@@ -156,7 +156,7 @@ theorem applyLim_climbOK (cfg : Cfg) (f : Nat) (s : State) (t : Option Id) (d : 
                 exact ih _ _ hrec (by simpa using hoof)
 
 /-- the chunks visited from `p` are chunks of `p` or of its ancestors -/
-theorem limitsAbove_anc {rk : Nat → Nat} {s : State} (i : Inv rk s) (cfg : Cfg) (f : Nat) (p : Nat) (l : Id)
+theorem limitsAbove_anc {rk : Nat → Nat} {s : State} (i : InvT rk s) (cfg : Cfg) (f : Nat) (p : Nat) (l : Id)
     (h : l ∈ limitsAbove cfg f s (some p)) :
     ∃ lb q, s.get l = some lb ∧ lb.kind = .limit ∧ lb.parent = some q ∧ (q = p ∨ Anc s q p) := by
   induction f generalizing p with
@@ -224,7 +224,7 @@ theorem findLim_some_of_mem (s : State) (cs : List Id) (l : Id) (lb : Obj) (hm :
         · exact ih hm'
 
 /-- USE is inherited all the way down a parent chain -/
-theorem use_down {s : State} (w : WFp s) (fl : FlagsInv s) {q p : Nat} (h : Anc s q p) :
+theorem use_down {s : State} (w : WFt s) (fl : FlagsInv s) {q p : Nat} (h : Anc s q p) :
     ∀ (qb pb : Obj), s.get q = some qb → s.get p = some pb → qb.useLim = true → pb.kind = .plain →
       pb.useLim = true := by
   induction h with
@@ -240,7 +240,7 @@ theorem use_down {s : State} (w : WFp s) (fl : FlagsInv s) {q p : Nat} (h : Anc 
     exact fl.inherit _ _ _ _ hp hpar hppb this (by rw [hk]; simp)
 
 /-- conversely, every chunk of `p` or of an ancestor of `p` is visited (repaired code) -/
-theorem limitsAbove_of_anc {rk : Nat → Nat} {s : State} (i : Inv rk s) (fl : FlagsInv s) (cfg : Cfg)
+theorem limitsAbove_of_anc {rk : Nat → Nat} {s : State} (i : InvT rk s) (fl : FlagsInv s) (cfg : Cfg)
     (hfix : cfg.fixGone = true) (f : Nat) (p : Nat) (pb : Obj) (hp : s.get p = some pb) (hpk : pb.kind = .plain)
     (hc : climbOK cfg f s (some p) = true)
     (l : Nat) (lb : Obj) (q : Nat) (hl : s.get l = some lb) (hlk : lb.kind = .limit) (hlp : lb.parent = some q)
